@@ -2,9 +2,9 @@
 # usage: dev/trymut.sh <patch> <check id> [more ids]   -- apply a seeded change to /repo, run quick checks, revert
 patch=$1; shift
 cd /repo && git status --short | grep -q . && { echo "/repo dirty"; exit 9; }
-git apply --3way "$patch" 2>/dev/null || git apply "$patch" || { echo "patch does not apply"; exit 8; }
+git apply "$patch" 2>/dev/null || git apply --3way "$patch" 2>/dev/null || { echo "patch does not apply"; git reset -q --hard HEAD; exit 8; }
 git reset -q
 for id in "$@"; do
   (cd /verif && timeout 1500 /venv/bin/python -m harness.check $id 2>&1 | grep -E "VIOLATION|KNOWN|\[$id\]|MACHINERY|Error" | head -6)
 done
-cd /repo && git checkout -- . && git status --short | head -3
+cd /repo && git reset -q --hard HEAD && git status --short | head -3
